@@ -91,6 +91,9 @@ pub struct World {
     /// no recorder, no virtual environment: the real code on the real file system (used to
     /// confirm that a finding is not an artefact of the simulator)
     pub plain: bool,
+    /// (committed-state digest | query) -> (answer, kind of handle that gave it)
+    pub query_log: std::collections::BTreeMap<String, (Vec<crate::reads::HitKey>, String)>,
+    pub extra_probes: std::collections::BTreeMap<String, u64>,
 }
 
 pub const FILE: &str = "m.mv2";
@@ -174,6 +177,8 @@ impl World {
             error_faults: false,
             wal_size_seen: 65536,
             plain: std::env::var("MEMSIM_PLAIN").is_ok(),
+            query_log: Default::default(),
+            extra_probes: Default::default(),
         };
         if !w.plain {
             shim::start(&w.dir, w.fault.clone(), w.fault_seed);
@@ -190,6 +195,10 @@ impl World {
         w.base = img.clone();
         w.model = model;
         w
+    }
+
+    pub fn probes_extra(&mut self, name: &str, n: u64) {
+        *self.extra_probes.entry(name.to_string()).or_default() += n;
     }
 
     pub fn viol(&mut self, props: &[&str], oracle: &str, msg: String, op: usize) {
@@ -394,6 +403,14 @@ impl World {
             }
             Op::Put(spec) => self.do_put(i, spec, None, log_b),
             Op::Update { target, spec } => self.do_put(i, spec, Some(*target), log_b),
+            Op::UpdateUri { uri, spec } => match self.resolve_uri(uri) {
+                Some(t) => self.do_put(i, spec, Some(t), log_b),
+                None => (false, true, None),
+            },
+            Op::DeleteUri { uri } => match self.resolve_uri(uri) {
+                Some(t) => self.exec(i, &Op::Delete { target: t }, log_b),
+                None => (false, true, None),
+            },
             Op::Delete { target } => {
                 if self.mem.is_none() || self.ro {
                     return (false, true, None);
@@ -617,6 +634,12 @@ impl World {
         }
     }
 
+    /// The committed, active, non-chunk frame currently carrying `uri` (for generator ops that
+    /// name documents rather than frame ids).
+    pub fn resolve_uri(&self, uri: &str) -> Option<u64> {
+        self.model.frames.iter().rev().find(|f| f.st == St::Active && f.role != 1 && f.chunks == 0 && f.uri.as_deref() == Some(uri)).map(|f| f.id)
+    }
+
     pub fn error_faults_now(&self) -> bool {
         self.error_faults || shim::with_rec(|r| r.errors_fired > 0).unwrap_or(false)
     }
@@ -639,7 +662,10 @@ impl World {
         if target.is_none() && payload.is_none() {
             return (false, true, None);
         }
-        let opts = put_options(spec);
+        let mut opts = put_options(spec);
+        if let Some(pu) = &spec.parent_uri {
+            opts.parent_id = self.resolve_uri(pu);
+        }
         let predicted_next = self.model.next_id();
         let real_next = self.mem.as_ref().unwrap().next_frame_id();
         if !self.model.unpredictable && real_next != predicted_next {
@@ -647,6 +673,19 @@ impl World {
         }
         // chunk plan as the library announces it
         let chunks: Option<Vec<String>> = payload.as_ref().and_then(|p| self.mem.as_ref().unwrap().preview_chunks(p));
+        // C07: for unstructured text the chunk texts concatenate to the normalized text
+        if let (Some(ch), Some(p), Some(pay)) = (&chunks, &payload, &spec.pay) {
+            if matches!(pay.kind, PK::LongText | PK::Text) {
+                if let Ok(s) = std::str::from_utf8(p) {
+                    if let Some(n) = memvid_core::normalize_text(s, usize::MAX) {
+                        if ch.concat() != n.text {
+                            self.viol(&["C07"], "chunks-concat-to-normalized-text", format!("chunk texts concatenate to {} bytes, normalized text has {} bytes", ch.concat().len(), n.text.len()), i);
+                        }
+                        self.probes_extra("normalized_concat_checks", 1);
+                    }
+                }
+            }
+        }
         let emb = spec.emb.clone();
         // expectations
         let mut expect_ok = true;
@@ -817,5 +856,6 @@ impl World {
         for m in out {
             self.viol(&m.props, m.oracle, m.msg, i);
         }
+        crate::reads::check_vec_membership(self, i, at);
     }
 }
